@@ -523,6 +523,22 @@ PROPS["C12"].jobs += [
 PROPS["C12"].assumptions = SCHED_ASSUME
 
 
+# ---- C02 on the Specx / StarPU executors as well (a level captured by reference in a Specx task body was only seen by C03 through ASan)
+PROPS["C02"].jobs += [
+    Job("specx-d3", sched(2, 3), quick=(1, 400, 100), thorough=(16, 3000, 100)),
+    Job("starpu-d3", sched(3, 3), quick=(1, 400, 100), thorough=(16, 3000, 100)),
+    Job("specx-tsm-d3", tsm(2, 3), quick=(1, 300, 100), thorough=(16, 3000, 100)),
+    Job("starpu-tsm-d3", tsm(3, 3), quick=(1, 300, 100), thorough=(16, 3000, 100)),
+]
+
+# ---- C08 on rebuilt trees: rebuild() re-groups with the block size and grouping mode of the tree (a second copy of the grouping code);
+# the oracle is the one of C13 (values after rebuild + execution equal the model whatever the grouping, structure of a fresh build)
+PROPS["C08"].jobs += [
+    Job("rb-d3", rebuild(3), quick=(2, 500, 100), thorough=(16, 2000, 100)),
+    Job("rb-d2", rebuild(2), quick=(1, 500, 100), thorough=(16, 2000, 100)),
+]
+
+
 # ---- target/source trees in C13 (rebuild), C07 (structure of both trees), C06 (construction of both trees) ---------------------------------
 PROPS["C13"].jobs += [Job("tsm-seq-d3", tsm(0, 3), quick=(3, 450, 100), thorough=(16, 3000, 100)), Job("tsm-seq-d2", tsm(0, 2), quick=(2, 450, 100), thorough=(16, 3000, 100))]
 PROPS["C07"].jobs += [Job("tsm-seq-d3", tsm(0, 3), quick=(2, 600, 100), thorough=(16, 3000, 100))]
